@@ -17,8 +17,10 @@ META = {
     "note": "Bounds: 4 series (two on the same shard, one dropped by relabelling), 6-8 float samples, batch size 2, 1-2 batches of channel "
             "capacity, 1-3 shards, up to 3 reshards, <=3 recoverable and <=1 non-recoverable injected errors. The WAL watcher itself (segments, "
             "checkpoints, SeriesReset), histograms/exemplars/metadata, the age limit and the flush-deadline hard shutdown are not modelled; "
-            "Append/StoreSeries are called directly (they are the watcher's callbacks). The BatchSendDeadline timer is part of the model "
-            "(MC_live, and MC_big in the thorough tier) but not of the replayed schedules (it cannot be fired deterministically). Trusted: hook placement, TLC, harness.",
+            "Append/StoreSeries are called directly (they are the watcher's callbacks). The BatchSendDeadline timer is two steps in the model "
+            "(commit to the timer case / call queue.Batch()); firing at any idle moment is model-checked (MC_live, MC_big), the replayed "
+            "schedules have it fire once per shard goroutine right after start (deadline short at start, long afterwards) with the "
+            "queue.Batch() call placed by TLC among the enqueues. Trusted: hook placement, TLC, harness.",
     "technique": "TLA+ model (QueueManager.tla) checked by TLC over all interleavings incl. liveness; TLC-generated interleavings replayed on the "
                  "real QueueManager with verifhook scheduler gates and a scripted WriteClient; endpoint log compared with the WAL per series",
     "design_ref": "DESIGN.md §5 C40",
@@ -30,23 +32,36 @@ def run(ctx):
     import vlib
     from concurrent.futures import ThreadPoolExecutor
     q = ctx.quick
-    with ThreadPoolExecutor(max_workers=4) as ex:
+    with ThreadPoolExecutor(max_workers=6) as ex:
         f_mc = ex.submit(ctx.tlc, "queuemanager", "QueueManager", "MC_quick.cfg", workers=4, timeout=1500)
+        # (M)+(R) the same with the batch-send-deadline timer: every shard goroutine commits to its timer case right after
+        # start (TimerFire) and calls queue.Batch() later (TimerTake), with enqueues in between
+        f_tm = ex.submit(ctx.tlc, "queuemanager", "QueueManager", "MC_timer.cfg", workers=4, timeout=1500)
+        # (M) non-vacuity: queue.Batch() returning the partial batch before a published one must break the order in the model
+        f_bug = ex.submit(ctx.tlc, "queuemanager", "QueueManager", "MC_bug.cfg", workers=2, timeout=900, allow_violation=True)
         f_live = ex.submit(ctx.tlc, "queuemanager", "QueueManager", "MC_live.cfg", workers=2, timeout=1500)
         # (M) bigger WAL, timer flush enabled, two reshards: check only (thorough tier)
         f_big = None if q else ex.submit(ctx.tlc, "queuemanager", "QueueManager", "MC_big.cfg", workers=4, timeout=3000)
         f_sim = ex.submit(ctx.tlc, "queuemanager", "QueueManager", "SIM.cfg", simulate=(25 if q else 500), depth=140, workers=4,
                           timeout=(300 if q else 1500))
-        mc, live, sim = f_mc.result(), f_live.result(), f_sim.result()
+        mc, tm, bug, live, sim = f_mc.result(), f_tm.result(), f_bug.result(), f_live.result(), f_sim.result()
         big = f_big.result() if f_big else None
-    for r in (mc, live, sim) + ((big,) if big else ()):
+    if bug.violated not in ("ShardFifo", "PerSeriesOrder"):
+        raise vlib.Infra("MC_bug: the design mutation (Batch() prefers the partial batch) is not rejected by the model (got %r)" % bug.violated)
+    for r in (mc, tm, live, sim) + ((big,) if big else ()):
         ctx.account(r)
+    ctx.log("MC_timer: %d generated / %d distinct, %d behaviours (%.0fs)" % (tm.generated, tm.distinct, len(tm.emitted), tm.wall))
     ctx.log("MC_quick (eager receive): %d generated / %d distinct, %d behaviours (%.0fs); MC_live (all interleavings, timer, safety+liveness) %d distinct (%.0fs); SIM %d walks%s"
             % (mc.generated, mc.distinct, len(mc.emitted), mc.wall, live.distinct, live.wall, len(sim.emitted),
                "; MC_big (timer) %d distinct (%.0fs)" % (big.distinct, big.wall) if big else ""))
-    behs = list(mc.emitted)
+    # behaviours ending with the shard's queue.Batch() call after its timer fired are always replayed
+    key = [b for b in tm.emitted if b["steps"] and b["steps"][-1]["a"] == "TimerTake"]
+    rest_t = [b for b in tm.emitted if not (b["steps"] and b["steps"][-1]["a"] == "TimerTake")]
+    rest = list(mc.emitted)
     if q:
-        behs = [b for i, b in enumerate(behs) if (i + ctx.seed) % 2 == 0]
+        rest_t = [b for i, b in enumerate(rest_t) if (i + ctx.seed) % 8 == 0]
+        rest = [b for i, b in enumerate(rest) if (i + ctx.seed) % 4 == 0]
+    behs = key + rest_t + rest
     behs += list(sim.emitted)
     if not behs:
         raise vlib.Infra("no behaviours emitted")
@@ -60,8 +75,8 @@ def run(ctx):
     ctx.assumptions += [
         "bounded model: 4 series, <=8 samples, batch size 2, <=3 shards, <=3 reshards, bounded injected send errors",
         "Append/StoreSeries driven directly (no WAL watcher, checkpoints, SeriesReset); floats only; remote write v1",
-        "timer flush only in the model-checked configs, not in replayed schedules; flush-deadline hard shutdown not modelled",
+        "timer: any idle moment in the model-checked configs; in replayed schedules once per shard goroutine, fired right after start, queue.Batch() placed by TLC; flush-deadline hard shutdown not modelled",
         "global order of the received log and batch composition are drift-only; strict = per-series sequence vs WAL",
     ]
-    return ctx.finish(rule="one behaviour per distinct state of the exhaustive model (seeded half in quick) + seeded complete walks; scheduled "
+    return ctx.finish(rule="one behaviour per distinct state of the exhaustive models without and with the timer (quick: all timer-take states, a seeded part of the rest) + seeded complete walks; scheduled "
                            "prefix forced with gates and a scripted endpoint, then run to the final Stop; endpoint log compared per series", exhaustive=False)
